@@ -375,6 +375,36 @@ package ctlog
 //@ func ctlog.(*Log).addPreChain$1 props C09
 //@   ensures [C09] add-pre-chain-refuses-final-certificates: ret == nil <==> le.IsPrecert
 
+// The two submission endpoints: the SCT body that is written is exactly what the shared handler returned for this
+// request's body, with its status code; an error is never answered with a success status; a 503 carries Retry-After.
+//@ func ctlog.(*Log).addChain props C02 C09 C17
+//@   requires l != nil && l.c != nil && r != nil && l.currentPool != nil && !held(&l.poolMu) && !held(&l.issuersMu) && !held(&l.rootsMu)
+//@   requires forall k int :: has(l.currentPool.lowPriority, k) ==> (0 <= k && k < len(l.currentPool.pendingLeaves))
+//@   call ctlog.(*Log).addChainOrPreChain requires [C09] handles-this-requests-body: c_reqBody == r.Body
+//@   call ctlog.(*Log).addChainOrPreChain bind rsp0 = ret0
+//@   call ctlog.(*Log).addChainOrPreChain bind code0 = ret1
+//@   call ctlog.(*Log).addChainOrPreChain bind err0 = ret2
+//@   call http.ResponseWriter.Write requires [C02,C09] writes-the-sct-of-this-request-only-on-success: c_arg1 == rsp0 && err0 == nil
+//@   call http.ResponseWriter.WriteHeader requires [C02,C09,C17] status-is-the-handlers: c_arg1 == 204 || (c_arg1 == code0 && err0 == nil)
+//@   call http.Error requires [C02,C09,C17] errors-keep-their-status-and-503-tells-when-to-retry: err0 != nil && c_code == code0 && (code0 == 503 ==> gHdrKeys["Retry-After"])
+//@ func ctlog.(*Log).addPreChain props C02 C09 C17
+//@   requires l != nil && l.c != nil && r != nil && l.currentPool != nil && !held(&l.poolMu) && !held(&l.issuersMu) && !held(&l.rootsMu)
+//@   requires forall k int :: has(l.currentPool.lowPriority, k) ==> (0 <= k && k < len(l.currentPool.pendingLeaves))
+//@   call ctlog.(*Log).addChainOrPreChain requires [C09] handles-this-requests-body: c_reqBody == r.Body
+//@   call ctlog.(*Log).addChainOrPreChain bind rsp0 = ret0
+//@   call ctlog.(*Log).addChainOrPreChain bind code0 = ret1
+//@   call ctlog.(*Log).addChainOrPreChain bind err0 = ret2
+//@   call http.ResponseWriter.Write requires [C02,C09] writes-the-sct-of-this-request-only-on-success: c_arg1 == rsp0 && err0 == nil
+//@   call http.ResponseWriter.WriteHeader requires [C02,C09,C17] status-is-the-handlers: c_arg1 == 204 || (c_arg1 == code0 && err0 == nil)
+//@   call http.Error requires [C02,C09,C17] errors-keep-their-status-and-503-tells-when-to-retry: err0 != nil && c_code == code0 && (code0 == 503 ==> gHdrKeys["Retry-After"])
+
+// Priority classification used by admission control: a precertificate is low priority once it is 48 hours old, a
+// final certificate when it already carries SCTs.
+//@ func ctlog.lowPriority props C17
+//@   requires c != nil
+//@   call ctfe.IsPrecertificate bind isPre = ret0
+//@   returns [C17] old-precertificates-and-logged-certificates-are-low-priority: (isPre ==> (ret == (gLastSince >= 172800000000000) && gLastSinceArg == c.NotBefore)) && (!isPre ==> (ret == (len(c.SCTList.SCTList) > 0)))
+
 // The wait function addLeafToPool hands back blocks until the entry's round is over; it touches no log state.
 //@ assume func ctlog.(*Log).addLeafToPool#ret0 params ctx
 //@ func ctlog.(*Log).addChainOrPreChain props C02 C09 C17
